@@ -168,6 +168,74 @@ theorem acyclic_children_first (H : Hist) (rank : Nat → Nat) (hac : Acyclic H 
     simp only [List.foldl_cons]
     exact ih _ (walk_acyclic H rank hac f out id [] (hf id) (by intro q hq; cases hq) h).1
 
+/-! ### … and after everything reachable from it -/
+
+/-- `y` is reachable from `x` through relation members that have a history -/
+inductive Reach (H : Hist) : Nat → Nat → Prop where
+  | direct {x m : Nat} {ms : List Nat} : H x = some ms → m ∈ ms → H m ≠ none → Reach H x m
+  | step {x m y : Nat} {ms : List Nat} : H x = some ms → m ∈ ms → H m ≠ none → Reach H m y → Reach H x y
+
+theorem split_unique : ∀ (P A : List Nat) (m : Nat) (R B : List Nat), (P ++ m :: R).Nodup → P ++ m :: R = A ++ m :: B → P = A := by
+  intro P
+  induction P with
+  | nil =>
+    intro A m R B hnd h
+    cases A with
+    | nil => rfl
+    | cons a A' =>
+      simp only [List.nil_append, List.cons_append, List.cons.injEq] at h
+      obtain ⟨rfl, h2⟩ := h
+      have : m ∈ R := by rw [h2]; simp
+      simp only [List.nil_append, List.nodup_cons] at hnd
+      exact absurd this hnd.1
+  | cons p P' ih =>
+    intro A m R B hnd h
+    cases A with
+    | nil =>
+      simp only [List.nil_append, List.cons_append, List.cons.injEq] at h
+      obtain ⟨rfl, h2⟩ := h
+      simp only [List.cons_append, List.nodup_cons] at hnd
+      exact absurd (by simp) hnd.1
+    | cons a A' =>
+      simp only [List.cons_append, List.cons.injEq] at h
+      obtain ⟨rfl, h2⟩ := h
+      simp only [List.cons_append, List.nodup_cons] at hnd
+      rw [ih A' m R B hnd.2 h2]
+
+theorem Before.mem_left {out : List Nat} {a b : Nat} (h : Before out a b) : a ∈ out := by
+  obtain ⟨A, B, rfl, ha⟩ := h
+  exact List.mem_append.mpr (Or.inl ha)
+
+theorem Before.trans {out : List Nat} (hnd : out.Nodup) {a b c : Nat} (h1 : Before out a b) (h2 : Before out b c) :
+    Before out a c := by
+  obtain ⟨A1, B1, e1, ha⟩ := h1
+  obtain ⟨A2, B2, e2, hb⟩ := h2
+  obtain ⟨P, Q, rfl⟩ := List.append_of_mem hb
+  -- out = P ++ b :: (Q ++ c :: B2) = A1 ++ b :: B1
+  have e3 : P ++ b :: (Q ++ c :: B2) = A1 ++ b :: B1 := by rw [← e1, e2]; simp
+  have hnd' : (P ++ b :: (Q ++ c :: B2)).Nodup := by rw [e3, ← e1]; exact hnd
+  have := split_unique P A1 b (Q ++ c :: B2) B1 hnd' e3
+  subst this
+  exact ⟨P ++ b :: Q, B2, e2, List.mem_append.mpr (Or.inl ha)⟩
+
+/-- **children first, transitively**: when every emitted relation comes after its direct members with history,
+    it comes after every relation reachable from it through members with history -/
+theorem childrenFirst_transitive (H : Hist) (out : List Nat) (hnd : out.Nodup) (hcf : ChildrenFirst H out) :
+    ∀ x y, Reach H x y → x ∈ out → Before out y x := by
+  intro x y hr
+  induction hr with
+  | direct hms hm hne => intro hx; exact hcf _ hx _ hms _ hm hne
+  | step hms hm hne _ ih =>
+    intro hx
+    have hb := hcf _ hx _ hms _ hm hne
+    exact (ih hb.mem_left).trans hnd hb
+
+/-- on an acyclic member graph every emitted relation comes after everything reachable from it -/
+theorem acyclic_descendants_first (H : Hist) (rank : Nat → Nat) (hac : Acyclic H rank) (f : Nat)
+    (hf : ∀ x, rank x < f) (ids : List Nat) :
+    ∀ x y, Reach H x y → x ∈ order H f ids → Before (order H f ids) y x :=
+  childrenFirst_transitive H _ (emitted_nodup H f ids) (acyclic_children_first H rank hac f hf ids)
+
 /-! ## termination on every graph: the recursion is never deeper than the number of histories -/
 
 theorem walk_nohist (H : Hist) (f : Nat) (out : List Nat) (x : Nat) (p : List Nat) (h : H x = none) :
@@ -247,6 +315,43 @@ theorem walk_fuel_sufficient (H : Hist) (D : List Nat) (hD : D.Nodup) (hH : ∀ 
       funext out id
       exact walk_fuel_step H D hD hH (D.length + 1 + k) out id [] (by omega)
     rw [this]
+
+/-- a strict upper bound of `rank` on a finite set -/
+def rankBound (rank : Nat → Nat) : List Nat → Nat
+  | [] => 0
+  | x :: xs => max (rank x + 1) (rankBound rank xs)
+
+theorem rankBound_gt (rank : Nat → Nat) : ∀ (D : List Nat) x, x ∈ D → rank x < rankBound rank D := by
+  intro D
+  induction D with
+  | nil => intro x hx; cases hx
+  | cons d ds ih =>
+    intro x hx
+    simp only [rankBound]
+    rcases List.mem_cons.mp hx with rfl | h
+    · omega
+    · have := ih x h; omega
+
+/-- **children before parents at the fuel that is proved sufficient**: on an acyclic member graph (any rank
+    function, no bound assumed) whose relations with a history are the finite set `D`, the order computed with fuel
+    `|D| + 1` — the fuel beyond which more fuel changes nothing (`walk_fuel_sufficient`) — emits every relation after
+    everything reachable from it -/
+theorem acyclic_children_first_sufficient_fuel (H : Hist) (D : List Nat) (hD : D.Nodup) (hH : ∀ y ms, H y = some ms → y ∈ D)
+    (rank : Nat → Nat) (hac : Acyclic H rank) (ids : List Nat) :
+    ChildrenFirst H (order H (D.length + 1) ids) ∧
+    ∀ x y, Reach H x y → x ∈ order H (D.length + 1) ids → Before (order H (D.length + 1) ids) y x := by
+  let B := rankBound rank D
+  have hac' : Acyclic H (fun x => min (rank x) B) := by
+    intro x ms hms m hm
+    have hx := rankBound_gt rank D x (hH x ms hms)
+    have := hac x ms hms m hm
+    simp only
+    omega
+  have hf : ∀ x, (fun x => min (rank x) B) x < D.length + 1 + (B + 1) := by intro x; simp only; omega
+  have hcf := acyclic_children_first H _ hac' (D.length + 1 + (B + 1)) hf ids
+  have hdf := acyclic_descendants_first H _ hac' (D.length + 1 + (B + 1)) hf ids
+  rw [walk_fuel_sufficient H D hD hH ids (B + 1)] at hcf hdf
+  exact ⟨hcf, hdf⟩
 
 /-! ## Close / cancellation: the producer goroutine always has an enabled step and ends
 
@@ -339,5 +444,20 @@ example : Acyclic exDag id := by
     · split at h
       · cases h; cases hm
       · cases h
+
+/-- the full hypothesis set of `acyclic_children_first`, with a bounded rank -/
+example : Acyclic exDag (fun x => min x 4) := by
+  intro x ms h m hm
+  unfold exDag at h
+  split at h
+  · cases h; subst_vars; simp at hm; rcases hm with rfl | rfl | rfl <;> decide
+  · split at h
+    · cases h; subst_vars; simp at hm; subst hm; decide
+    · split at h
+      · cases h; cases hm
+      · cases h
+example : ∀ x, (fun x => min x 4) x < 5 := by intro x; simp only; omega
+example : Reach exDag 3 1 := Reach.step (ms := [2, 1, 0]) (m := 2) (by decide) (by decide) (by decide)
+  (Reach.direct (ms := [1]) (by decide) (by decide) (by decide))
 
 end OsmVerif.Props.C14
